@@ -1,4 +1,5 @@
 import Driver.PathFn
+import Driver.CoreFn
 
 open Driver
 
@@ -7,7 +8,9 @@ def handle (line : String) : String :=
   | fn :: args =>
     match pathFn fn args with
     | some r => r
-    | none => "bad-op"
+    | none => match coreFn fn args with
+      | some r => r
+      | none => "bad-op"
   | [] => "bad-op"
 
 partial def loop (hin : IO.FS.Stream) (hout : IO.FS.Stream) : IO Unit := do
